@@ -182,7 +182,7 @@ func WAlphabet(names []string) []ops.Op {
 	return a
 }
 
-var WNames = []string{"a", "ab", "a_", "a%", "a%b", "a_c", "a b", "a.", "ä"}
+var WNames = []string{"a", "A", "ab", "a_", "a%", "a%b", "a_c", "a b", "a.", "ä"}
 
 // HandleAlphabet: handle calls over tiny argument domains, relative to the initial content length l.
 func HandleAlphabet(l int, appendMode bool) []ops.Op {
@@ -330,12 +330,12 @@ func ROSetups() [][]ops.Op {
 // NameAlphabet: a name universe with SQL wildcards, dots, spaces, non-ASCII and a >100-byte component.
 func NameAlphabet() []ops.Op {
 	long := "/" + "L0ng" + string(make([]byte, 0)) + repeat("n", 116)
-	comps := []string{"/a_", "/ab", "/a%", "/a b", "/ä", "/a.b", "/..a", long}
+	comps := []string{"/a_", "/ab", "/AB", "/a%", "/a b", "/ä", "/a.b", "/..a", long}
 	a := []ops.Op{}
 	for _, c := range comps {
 		a = append(a, ops.Op{K: "mkdir", P: c})
 	}
-	for _, c := range comps[:5] {
+	for _, c := range comps[:6] {
 		a = append(a, ops.Op{K: "put", P: c + "/x", C: "in " + c})
 	}
 	a = append(a, ops.Op{K: "put", P: "/a_", C: "file"}, ops.Op{K: "put", P: long, C: "long"}, ops.Op{K: "put", P: "/a.b/x.gz", C: "not compressed"})
@@ -343,6 +343,7 @@ func NameAlphabet() []ops.Op {
 		a = append(a, ops.Op{K: "remove", P: c})
 	}
 	a = append(a, ops.Op{K: "removeall", P: "/a_"}, ops.Op{K: "removeall", P: "/a%"},
+		ops.Op{K: "removeall", P: "/ab"}, ops.Op{K: "rename", P: "/AB", Q: "/moved"},
 		ops.Op{K: "rename", P: "/a_", Q: "/ab"}, ops.Op{K: "rename", P: "/ab", Q: "/a%"}, ops.Op{K: "rename", P: "/a b", Q: long}, ops.Op{K: "rename", P: "/a_/x", Q: "/ä/x"}, ops.Op{K: "rename", P: "/ä", Q: "/..a"},
 		ops.Op{K: "chmod", P: "/a%", N: 0o700})
 	return a
@@ -389,4 +390,14 @@ func DeepAlphabet() []ops.Op {
 		{K: "mkdirall", P: "/p/x/p"}, {K: "mkdir", P: "/p/x/p/y"}, {K: "put", P: "/p/x/p/q", C: "same names at two depths"},
 	}
 	return a
+}
+
+// KindReuseAlphabet: one name that is reused by entries of different kinds (file moved onto it, removed, re-created as a
+// directory, a directory moved onto it ...), the situation in which replay and rebuild act on "whatever row holds the name".
+func KindReuseAlphabet() []ops.Op {
+	return []ops.Op{
+		{K: "put", P: "/n", C: "n"}, {K: "mkdir", P: "/n"}, {K: "remove", P: "/n"},
+		{K: "put", P: "/f", C: "file f"}, {K: "mkdir", P: "/d"}, {K: "put", P: "/d/x", C: ""},
+		{K: "rename", P: "/f", Q: "/n"}, {K: "rename", P: "/d", Q: "/n"}, {K: "rename", P: "/n", Q: "/m"}, {K: "removeall", P: "/n"},
+	}
 }
